@@ -37,7 +37,7 @@ def value_for(rng, key, i, hostile_mode):
     if hostile_mode and key in ("form_title", "version", "style", "submission_url", "public_key"):
         return hostile.hostile(rng, f"{key}{i}", allow=lambda fr: "instance(" not in fr)
     return {
-        "form_title": f"Title marker {i}", "form_id": f"fid_marker_{i}", "version": f"ver.marker.{i}", "name": f"rootname{i}",
+        "form_title": f"Title marker {i}", "form_id": f"fid_marker_{i}", "version": f"ver.marker.{i}" if i % 3 else str(2024010100 + i * 1000003 % 899999999), "name": f"rootname{i}",
         "instance_name": f"concat('iname{i}', ${{q1}})", "submission_url": f"https://submit.example/{i}?a=1&b=2", "public_key": f"PUBKEY{i}==",
         "auto_send": ["true", "false"][i % 2], "auto_delete": ["false", "true"][i % 2], "style": f"pages theme-{i}",
         "instance_xmlns": f"http://example.org/xmlns/{i}",
@@ -108,7 +108,7 @@ def build(rng, mask, i, hostile_mode=False, use_alias=False):
     return f, exp
 
 
-CHANNELS = ["dict", "dict+fallback", "md-path", "xlsx-path", "md-str", "xlsx-bytes", "md-oddpath", "xlsx-oddpath"]
+CHANNELS = ["dict", "dict+fallback", "md-path", "xlsx-path", "md-str", "xlsx-bytes", "md-oddpath", "xlsx-oddpath", "xls-bytes", "csv-str", "csv-compact"]
 ODD_SUFFIXES = [".MD", ".XLSX", ".xlsform", ".txt", "", ".Xlsx", ".md.bak"]
 
 
@@ -139,6 +139,10 @@ def run_case(ctx, rng, mask, i, channel, argmode, hostile_mode, use_alias):
     sheets = form.to_sheets()
     if not form.settings:
         sheets.pop("settings", None)
+    if channel.startswith(("xlsx", "xls")) and "settings" in sheets:
+        # a version (or another all-digit setting) that the spreadsheet stores as a number: read back as the same digits
+        h, rows = sheets["settings"]
+        sheets["settings"] = (h, [[int(c) if isinstance(c, str) and c.isdigit() and not c.startswith("0") and len(c) < 16 else c for c in r] for r in rows])
     stem = f"stem_{i}"
     fallback = None
     if channel == "dict":
@@ -155,6 +159,13 @@ def run_case(ctx, rng, mask, i, channel, argmode, hostile_mode, use_alias):
         o, fallback = convert_odd_path(sheets, channel.split("-")[0], stem, ODD_SUFFIXES[(i // len(CHANNELS)) % len(ODD_SUFFIXES)], args)
     elif channel == "md-str":
         o = drive.convert_sheets(sheets, fmt="md", channel="str", args=args)
+    elif channel == "csv-str":
+        o = drive.convert_sheets(sheets, fmt="csv", channel="str", args=args)
+    elif channel == "csv-compact":
+        # the sheet name in the first cell of the header row (no row of its own)
+        o = drive.convert_sheets(sheets, fmt="csv", channel="str", args=args, render_kw={"compact": True if i % 2 else {"settings", "entities"}})
+    elif channel == "xls-bytes":
+        o = drive.convert_sheets(sheets, fmt="xls", channel="bytes", args=args)
     else:
         o = drive.convert_sheets(sheets, fmt="xlsx", channel="bytes", args=args)
     wit = lambda **kw: common.witness(form, channel=channel, args=args, mask=mask, i=i, argmode=argmode, hostile_mode=hostile_mode, use_alias=use_alias, **kw)  # noqa: E731
@@ -171,7 +182,7 @@ def run_case(ctx, rng, mask, i, channel, argmode, hostile_mode, use_alias):
         return
     ctx.case(sig=sig)
     ctx.ctr("forms_compared")
-    fmt_strip = channel.startswith(("md", "xlsx"))
+    fmt_strip = channel.startswith(("md", "xlsx", "xls", "csv"))
 
     def norm(v):
         if not isinstance(v, str):
@@ -179,7 +190,7 @@ def run_case(ctx, rng, mask, i, channel, argmode, hostile_mode, use_alias):
         for a, b in hostile.SMART.items():
             v = v.replace(a, b)
         if fmt_strip:
-            v = v.strip().replace("\u00a0", " ") if channel.startswith("xlsx") else v.strip()
+            v = v.strip().replace("\u00a0", " ") if channel.startswith(("xlsx", "xls")) else v.strip()
         return v
 
     def cmp(name, got, want):
